@@ -5,7 +5,8 @@
      0 LSubCheck a | 1 LSubAcquire a | 2 LSubAppend a | 3 LSubStart a | 4 LSubRelease a | 5 LSubWait a
      6 LPopen a (b<>0) | 7 LExit a | 8 LCommRet a (answer b: 0 unsat 1 sat 2 unknown 3 garbage)
      9 LCommTimeout a | 10 LCommExc a | 11 LFinally a | 12 LSetResult a
-     13 LSdSet a | 14 LSdAcquire a | 15 LSdCancel a b | 16 LSdSnap a | 17 LSdJoin a | 18 LSdReturn a *)
+     13 LSdSet a | 14 LSdAcquire a | 15 LSdCancel a b | 16 LSdSnap a | 17 LSdJoin a | 18 LSdReturn a
+     19 LSdRaise a *)
 From Coq Require Import ZArith List Bool String.
 From Coq Require Extraction.
 From Coq Require Import ExtrOcamlBasic ExtrOcamlString.
@@ -34,7 +35,7 @@ Definition dec_label (t a b : Z) : option label :=
   | 9 => Some (LCommTimeout j) | 10 => Some (LCommExc j) | 11 => Some (LFinally j)
   | 12 => Some (LSetResult j)
   | 13 => Some (LSdSet j) | 14 => Some (LSdAcquire j) | 15 => Some (LSdCancel j (nz b))
-  | 16 => Some (LSdSnap j) | 17 => Some (LSdJoin j) | 18 => Some (LSdReturn j)
+  | 16 => Some (LSdSnap j) | 17 => Some (LSdJoin j) | 18 => Some (LSdReturn j) | 19 => Some (LSdRaise j)
   | _ => None
   end.
 
@@ -47,6 +48,7 @@ Definition enc_label (l : label) : list Z :=
   | LSetResult j => [12; zn j; 0]
   | LSdSet k => [13; zn k; 0] | LSdAcquire k => [14; zn k; 0] | LSdCancel k j => [15; zn k; zn j]
   | LSdSnap k => [16; zn k; 0] | LSdJoin k => [17; zn k; 0] | LSdReturn k => [18; zn k; 0]
+  | LSdRaise k => [19; zn k; 0]
   end.
 
 Fixpoint dec_labels (fuel : nat) (l : list Z) : option (list label) :=
@@ -96,7 +98,7 @@ Definition enc_list (l : list nat) : list Z := zn (List.length l) :: map zn l.
 Definition enc_sd (s : sd) : list Z :=
   match dpc s with
   | DSet => [0; 0] | DAcquire => [1; 0] | DCancel l => 2 :: enc_list l | DSnap => [3; 0]
-  | DJoin l => 4 :: enc_list l | DDone => [5; 0]
+  | DJoin l => 4 :: enc_list l | DDone => [5; 0] | DRaised => [6; 0]
   end.
 Definition enc_lock (l : option owner) : list Z :=
   match l with None => [0; 0] | Some (OSub j) => [1; zn j] | Some (OSd k) => [2; zn k] end.
@@ -134,8 +136,75 @@ Definition c17_enabled (a : list Z) : list Z :=
   | None => [-2]
   end.
 
+(* ---- schedule enumeration (harness tooling, not part of any theorem) ---------------
+   all maximal schedules with at most [maxpre] preemptions.  Threads: submitter j,
+   worker j together with its process (LExit), shutdown caller k together with its
+   cancel tasks.  A switch away from a thread that still has an enabled label costs
+   one preemption.  [mask] restricts the data alternatives:
+     bit0 Popen may fail, bit1 communicate may raise, bit2 timeouts, bit3 all four answers
+     (otherwise only "unsat"). *)
+Definition thread_of (l : label) : nat :=
+  match l with
+  | LSubCheck j | LSubAcquire j | LSubAppend j | LSubStart j | LSubRelease j | LSubWait j => 4 * j
+  | LPopen j _ | LExit j | LCommRet j _ | LCommTimeout j | LCommExc j | LFinally j | LSetResult j => 4 * j + 1
+  | LSdSet k | LSdAcquire k | LSdCancel k _ | LSdSnap k | LSdJoin k | LSdRaise k | LSdReturn k => 4 * k + 2
+  end.
+
+Definition allowed (mask : Z) (l : label) : bool :=
+  match l with
+  | LPopen _ false => Z.testbit mask 0
+  | LCommExc _ => Z.testbit mask 1
+  | LCommTimeout _ => Z.testbit mask 2
+  | LCommRet _ AUnsat => true
+  | LCommRet _ _ => Z.testbit mask 3
+  | _ => true
+  end.
+
+Fixpoint enum (fuel : nat) (st : state) (last : option nat) (npre maxpre : nat) (mask : Z)
+              (racc : list label) : list (list label) :=
+  match fuel with
+  | O => [rev racc]
+  | S f =>
+      let en := filter (allowed mask) (enabled st) in
+      match en with
+      | [] => [rev racc]
+      | _ =>
+          flat_map (fun l =>
+            let th := thread_of l in
+            let cost := match last with
+                        | Some t => if Nat.eqb t th then O
+                                    else if existsb (fun l2 => Nat.eqb (thread_of l2) t) en then 1%nat else O
+                        | None => O
+                        end in
+            if Nat.leb (npre + cost) maxpre then
+              match step st l with
+              | Some st' => enum f st' (Some th) (npre + cost)%nat maxpre mask (l :: racc)
+              | None => []
+              end
+            else []) en
+      end
+  end.
+
+(* [maxpre; mask; njobs; tmos..; nsd; waits..; prefix labels..] -> schedules, each as [len; triples..] *)
+Definition c17_enum (a : list Z) : list Z :=
+  match a with
+  | maxpre :: mask :: r =>
+      match parse r with
+      | Some (st, ls) =>
+          match run st ls with
+          | Some st' =>
+              flat_map (fun s => zn (List.length s) :: flat_map enc_label s)
+                       (enum (S (rank st')) st' None O (nz maxpre) mask (rev ls))
+          | None => [-1]
+          end
+      | None => [-2]
+      end
+  | _ => [-2]
+  end.
+
 Definition table : list (string * (list Z -> list Z)) :=
   [ ("c17_trace"%string, c17_trace);
-    ("c17_enabled"%string, c17_enabled) ].
+    ("c17_enabled"%string, c17_enabled);
+    ("c17_enum"%string, c17_enum) ].
 
 Extraction "_build/C17/entries.ml" table.
